@@ -52,15 +52,21 @@ Definition is_err (o : outcome) : bool := match o with OErr _ => true | _ => fal
 Definition is_done (o : outcome) : bool := match o with ODone => true | _ => false end.
 Definition is_panic (o : outcome) : bool := match o with OPanic => true | _ => false end.
 
-(* ---- clause 1: typed writes, then the same typed reads: the written values come back, the buffer is empty ---- *)
-Definition round_ops (ws : list op) : list op := ws ++ XBytes :: map reader_of ws ++ [XLen].
+(* ---- clause 1: typed writes, then the same typed reads: the written values come back, the buffer is empty.
+        A limited string over its limit is refused (ErrSizeLimit): it is not part of the written sequence and must leave
+        the buffer as it was, so that the accepted writes around it still read back ---- *)
+Definition refused (o : op) : bool := match o with WLimStr l s => l <? uwrap 32 (zlen s) | _ => false end.
+Definition accepted (o : op) : bool := negb (refused o).
+Definition valid (o : op) : bool := wok o || refused o.
+Definition wout (o : op) : outcome := if refused o then OErr ESizeLimit else ODone.
+Definition round_ops (ws : list op) : list op := ws ++ XBytes :: map reader_of (filter accepted ws) ++ [XLen].
 Definition is_bytes (o : outcome) : bool := match o with OBytes _ => true | _ => false end.
 Definition round_ok (ws : list op) (obs : list outcome) : bool :=
-  if forallb wok ws then
+  if forallb valid ws then
     let n := length ws in
-    forallb is_done (firstn n obs)
+    outs_eqb (firstn n obs) (map wout ws)
     && match skipn n obs with
-       | b :: rest => is_bytes b && outs_eqb rest (map val_of ws ++ [OInt 0])
+       | b :: rest => is_bytes b && outs_eqb rest (map val_of (filter accepted ws) ++ [OInt 0])
        | [] => false
        end
   else true.
@@ -121,12 +127,34 @@ Definition shape_ok (o : op) (out : outcome) : bool :=
   | XLen => match out with OInt z => 0 <=? z | _ => false end
   | XBytes => is_bytes out
   end.
-Fixpoint hist_ok (ops : list op) (obs : list outcome) : bool :=
+(* ... and what is known about the unread length stays true: Len() / len(Bytes()) is what the last observation said
+   after any number of refused writes (a write that returns an error leaves the buffer unchanged), in-place rewrites
+   (which never change the length) and queries; Reset makes it 0 *)
+Definition obs_len (out : outcome) : option Z :=
+  match out with OInt z => Some z | OBytes l => Some (zlen l) | _ => None end.
+Definition next_known (known : option Z) (o : op) (out : outcome) : option Z :=
+  match o with
+  | XLen | XBytes => obs_len out
+  | XReset => Some 0
+  | XReWrite _ _ | XReWriteU32 _ _ => known
+  | _ => if is_write o && is_err out then known else None
+  end.
+Definition len_ok (known : option Z) (o : op) (out : outcome) : bool :=
+  match o with
+  | XLen | XBytes => match known, obs_len out with Some n, Some m => n =? m | _, _ => true end
+  | _ => true
+  end.
+Fixpoint hist_ok' (known : option Z) (ops : list op) (obs : list outcome) : bool :=
   match ops, obs with
   | [], [] => true
-  | o :: ops', out :: obs' => shape_ok o out && hist_ok ops' obs'
+  | o :: ops', out :: obs' => shape_ok o out && len_ok known o out && hist_ok' (next_known known o out) ops' obs'
   | _, _ => false
   end.
+Definition hist_ok (init : list Z) (ops : list op) (obs : list outcome) : bool := hist_ok' (Some (zlen init)) ops obs.
+
+(* ---- a value that a read returned is a value: it is still the same after any later use of the buffer
+        (now = the results the caller still holds, looked at again after the whole history) ---- *)
+Definition hold_ok (obs now : list outcome) : bool := outs_eqb obs now.
 
 (* ---- clause 4: the stream reader decodes exactly what the buffer reader decodes: the same value at every read, an error
         exactly where the buffer reader reports one, the same bytes left over; no panic ---- *)
